@@ -53,7 +53,7 @@ def cases(ctx, budget):
     for i in range(n):
         r = rng.random()
         if r < 0.45:
-            kind, q = "valid", rng.choice(VALID) if rng.random() < 0.6 else gen.render_query(rng, gen.rand_query(rng, depth=2, maxseg=3)).replace("\n", " ").replace("\r", " ")
+            kind, q = "valid", rng.choice(VALID) if rng.random() < 0.6 else gen.render_query(rng, gen.rand_query(rng, depth=2, maxseg=3))
             doc_bytes = json.dumps(rng.choice(DOCS) if rng.random() < 0.6 else gen.rand_json(rng, depth=3, top=True), ensure_ascii=rng.random() < 0.5).encode("utf8")
         elif r < 0.7:
             kind, q = rng.choice(INVALID)
@@ -73,9 +73,13 @@ def cases(ctx, budget):
         if debug: args.append("--debug")
         if pretty: args.append("--pretty")
         if use_qfile:
-            qf = os.path.join(tmp, "q%d.txt" % i); open(qf, "w", encoding="utf8").write(q + ("\n" if rng.random() < 0.5 else ""))
+            # the whole file is the query (surrounding blank space stripped): queries spanning several lines, leading blank lines
+            if kind == "valid" and rng.random() < 0.4: q = q.replace(" ", "\n", 1) if " " in q else q.replace("[", "\n[", 1)
+            q = rng.choice(["", "", "\n", "  \n\t", "\r\n"]) + q + rng.choice(["", "\n", "\n\n", " "])
+            qf = os.path.join(tmp, "q%d.txt" % i); open(qf, "w", encoding="utf8", newline="").write(q)
             args += ["-r", qf]
         else:
+            q = q.replace("\n", " ").replace("\r", " ")
             args += ["-q", q]
         if not use_stdin:
             df = os.path.join(tmp, "d%d.json" % i); open(df, "wb").write(doc_bytes)
